@@ -82,6 +82,33 @@ class _Null(_io_mod.TextIOBase):
 _DEVNULL = _Null()
 
 
+def gltf_unbacked_bytes(files, main):
+    """Bytes an accessor without a buffer view declares (count x components x item size), the largest one; 0 when there is none."""
+    import json
+
+    data = files.get(main, b"")
+    try:
+        if data[:2] == b"PK":
+            import io
+            import zipfile
+
+            with zipfile.ZipFile(io.BytesIO(data)) as z:
+                names = [n for n in z.namelist() if n.lower().endswith((".glb", ".gltf"))]
+                data = z.read(names[0]) if names else b""
+        if data[:4] == b"glTF":
+            data = data[20 : 20 + int.from_bytes(data[12:16], "little")]
+        doc = json.loads(data.decode("utf-8"))
+        sizes = {5120: 1, 5121: 1, 5122: 2, 5123: 2, 5125: 4, 5126: 4}
+        comps = {"SCALAR": 1, "VEC2": 2, "VEC3": 3, "VEC4": 4, "MAT2": 4, "MAT3": 9, "MAT4": 16}
+        best = 0
+        for a in doc.get("accessors") or []:
+            if isinstance(a, dict) and "bufferView" not in a and isinstance(a.get("count"), int):
+                best = max(best, a["count"] * comps.get(a.get("type"), 1) * sizes.get(a.get("componentType"), 4))
+        return best
+    except Exception:
+        return 0
+
+
 def budget_steps(n):
     return STEP_A + STEP_B * n
 
@@ -122,6 +149,16 @@ def apply_fault(data, f, other=b""):
         return token_copy(data, f)
     if k == "uri_special":
         return uri_special(data, f)
+    if k == "unbacked_accessor":
+        import json
+
+        try:
+            doc = json.loads(data.decode("utf-8"))
+            doc["accessors"][0].pop("bufferView", None)
+            doc["accessors"][0]["count"] = 5 * 10**7
+            return json.dumps(doc).encode("utf-8")
+        except Exception:
+            return data
     if k == "json_field":
         return json_field(data, f)
     if k == "container_inner":
@@ -297,6 +334,16 @@ def json_field(data, f):
     if layout and r.random() < 0.5:
         # the JSON of a glTF describes a binary layout: set one layout field of one buffer view / accessor, written before or not
         d = layout[r.randrange(len(layout))]
+        accs = [a for a in (doc.get("accessors") or []) if isinstance(a, dict)]
+        if accs and r.random() < 0.15:
+            # an accessor without a buffer view is legal (it stands for zeros): its count is then bounded by nothing in the file
+            a = accs[r.randrange(len(accs))]
+            a.pop("bufferView", None)
+            a["count"] = r.choice([5 * 10**7, 10**9, 2**31])
+            try:
+                return json.dumps(doc).encode("utf-8")
+            except Exception:
+                return data
         key = r.choice(["byteStride", "byteStride", "byteStride", "byteOffset", "byteLength", "count", "componentType", "type", "bufferView", "buffer", "normalized", "sparse"])
         old = d.get(key)
         vals = JSON_VALUES + ([old + 1, old - 1, old * 2, old * 80, old * 1000] if isinstance(old, (int, float)) and not isinstance(old, bool) else [])
@@ -771,6 +818,13 @@ class C20(World):
             res = dict(res, steps=0, peak=0)
         if outcome == "step-budget" or res["steps"] > budget_steps(total):
             ctx.fail("time", cfg["fmt"] + "-" + kind, f"{label}: {res['steps']} steps > budget {budget_steps(total)}: {exc}")
+        fid3 = "C20-gltf-accessor-without-view-trusts-count"
+        if (outcome == "memory-error" or res["peak"] > budget_mem(total)) and ctx.is_known(fid3) and not foreign:
+            declared = gltf_unbacked_bytes(files, main)
+            if declared > budget_mem(total) and res["peak"] <= 16 * declared + budget_mem(total):
+                # recorded finding: zeros are allocated for whatever count such an accessor declares
+                ctx.finding(fid3, f"{declared} bytes declared by an accessor without a buffer view in {total} bytes: {outcome}, peak {res['peak']}")
+                return
         if outcome == "memory-error":
             ctx.fail("memory", cfg["fmt"] + "-" + kind, f"{label}: MemoryError {exc}")
         if res["peak"] > budget_mem(total):
@@ -833,6 +887,10 @@ class C20(World):
         progs.append(("C20-texture-decoded-when-scene-is-flattened", {"config": cfg0, "seed": 1, "ops": [
             {"op": "payload", "geom": g0, "other": g0, "rs": 1, "corpus": None},
             {"op": "attempt", "fault": {"kind": "amplifier", "sub": "glb_image_bomb", "a": 2, "b": 0, "fmt": "glb", "salt": 1, "at": 0}, "route": "load_mesh", "transport": "bytesio", "rs": 2}]}))
+        cfg1 = {"kind": "mesh", "fmt": "gltf", "routes": ["load"], "weights": {"unbacked_accessor": 1.0}, "n_attempts": 1, "stack": False, "enumerate_truncation": False}
+        progs.append(("C20-gltf-accessor-without-view-trusts-count", {"config": cfg1, "seed": 1, "ops": [
+            {"op": "payload", "geom": g0, "other": g0, "rs": 1, "corpus": None},
+            {"op": "attempt", "fault": {"kind": "unbacked_accessor", "salt": 1, "at": 0, "fmt": "gltf"}, "route": "load", "transport": "bytesio", "rs": 2}]}))
         for fmt, sub, a, b in (("dxf", "dxf_flat", 120, 120), ("3mf", "3mf_chain_deep", 0, 0)):
             kind = "path2d" if fmt == "dxf" else "mesh"
             g = {"kind": "path2d", "salt": 1, "shape": "square"} if fmt == "dxf" else geom
